@@ -15,7 +15,7 @@ Full statement (the property's clause):
 
 Proved below as `parse_build_partial` under the decidable hypothesis `covered x` (Spec/GbRoundTrip.lean) =
 the judge's round-trip domain `wfSeqJ` minus the two known findings (`wfLayoutG`: metadata may hold runs
-of blanks none of which falls on a wrap point), AND positional reference numbers, AND every REFERENCE
+of blanks none of which falls on a wrap point), AND every REFERENCE
 line wrapped without loss (any length; only a break AT its own two blanks is excluded), AND
 `GbLayout.wf (toRec x)` (the record, as C01's abstract record type expresses it, lies in C01's domain:
 a date with a real month, no quotation mark in a qualifier key, a location text that is one INSDC-shaped
@@ -26,7 +26,8 @@ every case, and the parser MODEL is compared with the real parser on every writt
 open PolyVerif.Spec.GbRoundTrip in
 /-- **Write-then-read (partial).**  For every covered record and every map iteration order the
 parser model accepts the text `Build` writes and returns the record the writer was given: same
-sequence, locus, metadata, references (numbered by position), extra blocks, and per feature the
+sequence, locus, metadata, references (each with its own number when it has one, else numbered by its
+position), extra blocks, and per feature the
 same key, the same location text (cached, else `BuildLocationString` of the structure) and the
 same qualifier map.  Metadata of any length (wrapped by `WrapString` wherever it breaks), any
 number of features / qualifiers / references / blocks, any sequence length < 10^8. -/
@@ -40,11 +41,12 @@ def sparseRecord : Sequence :=
     features := [{ type := "gene".toList }],
     sequence := "acgt".toList }
 
-/-- a record with a run of blanks inside a line and a REFERENCE line of 100 columns (wrapped inside the range) -/
+/-- a record with a run of blanks inside a line, a REFERENCE line of 100 columns (wrapped inside the range)
+with its own number 7, an unnumbered reference, and the number 7 once more -/
 def wideRecord : Sequence :=
   { metadata := { locus := { name := "w1".toList, sequenceLength := "4".toList },
                   definition := "two   blanks inside".toList,
-                  references := [{ range := "(bases 1 to 10; 20 to 30; 40 to 50; 60 to 70; 80 to 90; 100 to 110; 120 to 130)".toList, index := "1".toList }] },
+                  references := [{ range := "(bases 1 to 10; 20 to 30; 40 to 50; 60 to 70; 80 to 90; 100 to 110; 120 to 130)".toList, index := "7".toList }, { authors := "unnumbered".toList }, { index := "7".toList }] },
     sequence := "acgt".toList }
 
 /-- a covered record: wrapped definition, a reference, an extra block, two features -/
